@@ -1,8 +1,8 @@
 #!/usr/bin/env python3
-"""Self-test of the round-7 translators (`containers` -> C12Gen, `reasoningN` -> C02Gen, `wiring` -> C13Gen, `ringslots` -> C05Gen) on edited *copies* of the
+"""Self-test of the round-7 translators (`containers` -> C12Gen, `reasoningN` -> C02Gen, `wiring` -> C13Gen, `ringslots` -> C05Gen, `executor` -> C06Gen) on edited *copies* of the
 sources — never touches /repo or /verif/lean:
 
-    python3 tools/test_rs2lean_round7.py [--repo /repo] [--only containers|reasoningN|wiring|ringslots]
+    python3 tools/test_rs2lean_round7.py [--repo /repo] [--only containers|reasoningN|wiring|ringslots|executor]
 
 A scratch copy of the source tree (git worktree-free: the files are copied) and of the Lean project (with its build output, so that
 only the touched modules are rebuilt) is made under a temporary directory; for every edit the translator is run on the copy and the
@@ -23,6 +23,7 @@ MC = 'deep_causality_macros/src/collections.rs'
 GR = 'deep_causality/src/protocols/causable_graph/graph_reasoning.rs'
 BU = 'dcl_data_structures/src/ring_buffer/dsl/rust_disruptor_builder.rs'
 RBF = 'dcl_data_structures/src/ring_buffer/ringbuffer/const_array_ring_buffer.rs'
+EXE = 'dcl_data_structures/src/ring_buffer/executor/thread_pool_executor.rs'
 PUSH_LOOP = "        let mut all: Vec<&T> = Vec::new();\n        for item in self {\n            all.push(&item)\n        }\n        all\n"
 DEQ_TOVEC = ("        let mut v = Vec::with_capacity(self.len());\n        let mut deque = self.clone(); // clone to avoid mutating the original\n\n"
              "        for item in deque.make_contiguous().iter() {\n            v.push(item.clone());\n        }\n\n        v\n")
@@ -102,6 +103,17 @@ EDITS = {
         ('BREAK', 'index by remainder of the mask (refused or broken)', RBF,
          "    unsafe fn get(&self, sequence: Sequence) -> &T {\n        let index = sequence as usize & self.mask;",
          "    unsafe fn get(&self, sequence: Sequence) -> &T {\n        let index = sequence as usize % self.mask;"),
+    ]),
+    'executor': ('DcVerif.Props.C06Gen', [
+        ('QUIET', 'renamed locals, no into_iter()', EXE,
+         "        let mut threads = Vec::new();\n        for r in self.runnables.into_iter() {",
+         "        let mut threads = Vec::new();\n        for r in self.runnables {"),
+        ('BREAK', 'every second runnable is not spawned (refused)', EXE, "        for r in self.runnables.into_iter() {",
+         "        for r in self.runnables.into_iter().step_by(2) {"),
+        ('BREAK', 'join forgets the last thread (refused)', EXE, "        for t in threads.into_iter() {",
+         "        for t in threads.into_iter().rev().skip(1) {"),
+        ('BREAK', 'handle keeps no threads (refused)', EXE, "        ThreadedExecutorHandle { threads }",
+         "        ThreadedExecutorHandle { threads: Vec::new() }"),
     ]),
 }
 
